@@ -438,6 +438,40 @@ class Item:
         for h in hits:
             self.rewrite(h.start(), h.end(), "", "R1")
 
+    def d_nodefault(self, fn):
+        """R7a: the default body of trait method fn is replaced by `;` (the body is materialised into
+        every impl of the unit that inherits it, see d_inherit)"""
+        k, pclose, bo, end, _ = self.fn_span(fn)
+        if bo is None:
+            raise Undecided("LOST-ANCHOR: trait method %s has no default body in %s" % (fn, self.where()))
+        self.rewrite(bo, end, ";", "R7-nodefault")
+
+    def d_inherit(self, fn, relpath, locators, repo):
+        """R7b: if this impl does not define fn, the trait's default method (verbatim from relpath ::
+        locators) is copied into the impl -- which is what the compiler does."""
+        if re.search(r"\bfn\s+" + re.escape(fn) + r"\b", self.m):
+            return  # the impl defines it: nothing is inherited
+        src = open(os.path.join(repo, relpath)).read()
+        s0, e0 = locate(src, mask(src), locators)
+        tr = Item(relpath, locators, src[s0:e0], src.count("\n", 0, s0) + 1)
+        k, pclose, bo, end, _ = tr.fn_span(fn)
+        if bo is None:
+            raise Undecided("LOST-ANCHOR: %s has no default body for %s" % (tr.where(), fn))
+        text = tr.text[k:end]
+        for (o_, n_) in getattr(self, "inherit_repl", []):
+            if o_ not in text:
+                raise Undecided("LOST-ANCHOR: inheritR target `%s` not in default method %s" % (o_, fn))
+            text = text.replace(o_, n_)
+            self.log.append({"rule": "R6", "where": "%s:%d" % (relpath, tr.line_of(k)), "before": o_, "after": n_})
+        close = match_brace(self.m, self.m.find("{"))
+        n = len(self.log)
+        self.log.append({"rule": "R7-inherit", "where": "%s:%d" % (relpath, tr.line_of(k)), "before": "",
+                         "after": "default method %s of %s copied into %s" % (fn, tr.where(), self.where())})
+        self.add(close, close, "/*+vxR:%d*/  %s\n/*-vxR*/" % (n, text), "rewrite", "")
+        # weaving directives for the inherited fn operate on a nested item: record for later
+        self.inherited = getattr(self, "inherited", {})
+        self.inherited[fn] = (close, text)
+
     def d_only(self, names):
         """keep only the listed fns of an impl/trait body"""
         bo = self.m.find("{")
@@ -777,6 +811,19 @@ def build_unit(unit_path, repo=REPO):
                 it.d_R4(args[0], args[1], "R6")
             elif name == "R1":
                 it.d_R4(args[0], args[1], "R1")
+            elif name == "nodefault":
+                it.d_nodefault(args[0])
+            elif name == "implfix":
+                # if the impl defines fn itself, give it the same `impl Trait` -> generic rewrite as the trait
+                if re.search(r"\bfn\s+" + re.escape(args[0]) + r"\b", it.m):
+                    for (o_, n_) in getattr(it, "inherit_repl", []):
+                        it.d_R4(o_, n_, "R6")
+            elif name == "inheritR":
+                it.inherit_repl = getattr(it, "inherit_repl", []) + [(args[0], args[1])]
+            elif name == "inherit":
+                # inherit <fn> <relpath> :: trait X    (R7: materialise an inherited default method)
+                rel2, _, loc2 = " ".join(args[1:]).partition("::")
+                it.d_inherit(args[0], rel2.strip(), [l.strip() for l in loc2.split("::") if l.strip()], repo)
             elif name == "R5":
                 it.d_R5()
             elif name == "drop":
